@@ -129,6 +129,24 @@ func (w *World) stepHandles(st string) bool {
 		// a store snapshot shows whatever the store exposes now; it must keep showing exactly that
 		w.handles = append(w.handles, &handle{Kind: "storesnap", Snap: ss, Expect: DumpSnapshot(ss, w.probes).String()})
 		return true
+	case "IX": // iterator exercise on every open snapshot: walk forward, seek backwards (restart path), close
+		n := 0
+		for _, h := range w.handles {
+			if h.Snap == nil {
+				continue
+			}
+			it, err := h.Snap.StartIterator(nil, nil, moss.IteratorOptions{})
+			if err != nil || it == nil {
+				continue
+			}
+			n++
+			it.Next()
+			it.Next()
+			it.SeekTo([]byte(""))
+			it.Current()
+			it.Close()
+		}
+		return n > 0
 	case "H-":
 		if len(w.handles) == 0 {
 			return false
